@@ -2,8 +2,8 @@ import ShVerif.Model.C27
 /-
   Line protocol for C27.
 
-    run|runfx <bg> <base> <dir> <op>* | <op>*     heap-shape dump of parent and child after the ops
-    spec|specfx <bg> <base> <dir> <op>* | <op>*   the SPECIFICATION: the parent's observable state
+    run|runfx <bg> <base> <dir> <nopts> <op>* | <op>*     heap-shape dump of parent and child after the ops
+    spec|specfx <bg> <base> <dir> <nopts> <op>* | <op>*   the SPECIFICATION: the parent's observable state
                                                    as it was *before* the subshell ran (the impl
                                                    answers with the state *after*)
     growtab s|i <n>                                the growth policy the driver uses as oracle
@@ -21,9 +21,12 @@ def sizeClasses : List Nat :=
 
 def roundUp (b : Nat) : Nat := (sizeClasses.find? (· ≥ b)).getD b
 
+/-- `growslice` + `roundupsize`; element types with pointers (strings, 16 bytes) above 512 bytes
+    carry an 8-byte malloc header. -/
 def goGrow (esz : Nat) : Grow := fun _ old need =>
   let nc := if need > 2 * old then need else if old < 256 then 2 * old else need
-  roundUp (nc * esz) / esz
+  let b := nc * esz
+  if esz = 16 && b > 512 then (roundUp (b + 8) - 8) / esz else roundUp b / esz
 
 def goGrows : Grows := { strs := goGrow 16, ints := goGrow 8 }
 
@@ -249,24 +252,26 @@ structure Case where
   bg : Bool
   base : List (Bytes × Bytes)
   dir : Bytes
+  nopts : Nat
   setup : List Op
   child : List Op
 
 def parseCase (args : List String) : Option Case :=
   match args with
-  | bg :: base :: dir :: rest => do
+  | bg :: base :: dir :: nopts :: rest => do
     let bg ← parseBool bg
     let base ← parseBase base
     let dir ← ofHex dir
+    let nopts ← nopts.toNat?
     let setupToks := rest.takeWhile (· ≠ "|")
     let childToks := (rest.dropWhile (· ≠ "|")).drop 1
     let setup ← setupToks.mapM parseOp
     let child ← childToks.mapM parseOp
-    pure { bg, base, dir, setup, child }
+    pure { bg, base, dir, nopts, setup, child }
   | _ => none
 
 def runCase (fx spec : Bool) (c : Case) : String :=
-  match initState c.base c.dir nOpts with
+  match initState c.base c.dir c.nopts with
   | none => "panic-init"
   | some (h, r) =>
     match run fx goGrows h r c.setup with
